@@ -17,6 +17,7 @@ import (
 	"github.com/brimdata/super/compiler/data"
 	"github.com/brimdata/super/compiler/kernel"
 	"github.com/brimdata/super/compiler/optimizer/demand"
+	"github.com/brimdata/super/runtime/sam/expr"
 	"github.com/brimdata/super/zbuf"
 	"github.com/brimdata/super/zcode"
 	"github.com/brimdata/super/zio"
@@ -219,12 +220,41 @@ type result struct {
 
 // run executes the program the way the query command does: analyse,
 // optimize (the leading filter moves into the scan), build over the reader.
-func run(seq ast.Seq, e *encoding) result {
+func run(seq ast.Seq, e *encoding) result { return runPrep(seq, e, nil) }
+
+// leadingFiltersOnly reduces an analysed DAG to its source and the filters
+// that directly follow it (everything else becomes pass): after Optimize that
+// is exactly the predicate pushed into the scan.
+func leadingFiltersOnly(seq dag.Seq) {
+	i := 1
+	for i < len(seq) {
+		if _, ok := seq[i].(*dag.Filter); !ok {
+			break
+		}
+		i++
+	}
+	for ; i < len(seq); i++ {
+		if _, ok := seq[i].(*dag.Output); ok && i == len(seq)-1 {
+			break
+		}
+		seq[i] = dag.PassOp
+	}
+	if n := len(seq); n > 0 {
+		if _, ok := seq[n-1].(*dag.Output); !ok {
+			seq[n-1] = &dag.Output{Kind: "Output", Name: "main"}
+		}
+	}
+}
+
+func runPrep(seq ast.Seq, e *encoding, prep func(dag.Seq)) result {
 	rt := prog.NewRuntime(zed.NewContext())
 	job, err := compiler.NewJob(rt.Context, seq, data.NewSource(nil, nil), nil)
 	if err != nil {
 		rt.Cancel()
 		return result{stage: "analyze", err: err}
+	}
+	if prep != nil {
+		prep(job.Entry())
 	}
 	if _, ok := job.DefaultScan(); !ok {
 		rt.Cancel()
@@ -378,13 +408,13 @@ func runCase(c Case) *vt.Outcome {
 		}
 	}
 	// the input values the leading filter accepts, according to the reference
-	var leadSeq ast.Seq
 	var leadRef result
 	selective := false
-	if c.Lead != "" {
-		if ls, _, err := compiler.Parse(c.Lead); err == nil {
-			leadSeq = ls
-			leadRef = run(leadSeq, usable[0])
+	leadOK := false
+	if ref.filter != nil {
+		{
+			leadRef = runPrep(seq, usable[0], leadingFiltersOnly)
+			leadOK = leadRef.stage == ""
 			if leadRef.stage == "" {
 				if n := len(leadRef.vals); n > 0 && n < len(c.Input.Vals) {
 					selective = true
@@ -431,25 +461,24 @@ func runCase(c Case) *vt.Outcome {
 		sig := "C04/" + kind + "/output-differs"
 		msg := fmt.Sprintf("%s\nprogram: %s\nencoding %s %s\nzson -> %d values, %s -> %d values", diff, c.Program, e.name, describe(c, e), len(ref.vals), e.name, len(got.vals))
 		// Pinpoint: which input values does the leading filter lose in this encoding?
-		if leadSeq != nil && leadRef.stage == "" {
-			if lg := run(leadSeq, e); lg.stage == "" {
+		if leadOK {
+			if lg := runPrep(seq, e, leadingFiltersOnly); lg.stage == "" {
 				lost := prog.MultisetMinus(leadRef.vals, lg.vals)
 				extra := prog.MultisetMinus(lg.vals, leadRef.vals)
 				if len(lost)+len(extra) > 0 {
 					sig = "C04/" + kind + "/leading-filter-selects-differently"
-					msg += fmt.Sprintf("\nleading filter %q: %d input values lost, %d extra in %s", c.Lead, len(lost), len(extra), e.name)
+					msg += fmt.Sprintf("\nleading filter(s): %d input values lost, %d extra in %s", len(lost), len(extra), e.name)
 					for i, v := range lost {
 						if i < 3 {
 							msg += "\n  lost: " + oracle.Show(v)
 						}
 					}
 				}
-				b, _ := json.Marshal(lg.filter)
-				if e.zng && len(extra) == 0 && prog.AllOnlyNestedFieldName(lost, prog.SearchTerms(string(b))) {
-					// Known: keyword search vs names of fields of records inside
-					// containers.  The rest of the program must still agree on the
-					// values that did get through: program(zson of those) == program(zng).
-					sig = "C04/zng-bufferfilter/search-fieldname-inside-container"
+				if class := bufferFilterLossClass(lg.filter, lost); e.zng && len(extra) == 0 && class != "" {
+					// Known false negatives of the ZNG buffer filter.  The rest of the
+					// program must still agree on the values that did get through:
+					// program(zson of those) == program(zng).
+					sig = "C04/zng-bufferfilter/" + class
 					if vt.IsKnown(sig) {
 						exp := run(seq, zsonOf(lg.vals))
 						if exp.stage == "" && compare(exp.vals, got.vals) == "" {
@@ -479,6 +508,55 @@ func runCase(c Case) *vt.Outcome {
 	}
 	o.NonTrivial = multiFrame && bufferFilter && selective
 	return o
+}
+
+// zeroLiteralPaths returns the paths P of the comparisons `P == false` of a filter expression.
+func zeroLiteralPaths(e dag.Expr, out *[][]string) {
+	switch e := e.(type) {
+	case *dag.BinaryExpr:
+		if e.Op == "==" {
+			if this, ok := e.LHS.(*dag.This); ok {
+				if lit, ok := e.RHS.(*dag.Literal); ok && lit.Value == "false" {
+					*out = append(*out, this.Path)
+				}
+			}
+		}
+		zeroLiteralPaths(e.LHS, out)
+		zeroLiteralPaths(e.RHS, out)
+	case *dag.UnaryExpr:
+		zeroLiteralPaths(e.Operand, out)
+	}
+}
+
+// bufferFilterLossClass names the known class that explains why the ZNG
+// scanner lost the values `lost` under filter, or "".
+func bufferFilterLossClass(filter dag.Expr, lost []zed.Value) string {
+	if len(lost) == 0 || filter == nil {
+		return ""
+	}
+	b, _ := json.Marshal(filter)
+	if prog.AllOnlyNestedFieldName(lost, prog.SearchTerms(string(b))) {
+		return "search-fieldname-inside-container"
+	}
+	var paths [][]string
+	zeroLiteralPaths(filter, &paths)
+	if len(paths) > 0 {
+		all := true
+		for _, v := range lost {
+			hit := false
+			for _, p := range paths {
+				// (a null record makes its fields null as well)
+				if f := expr.NewDottedExpr(zed.NewContext(), p).Eval(expr.NewContext(), v); f.IsNull() && zed.TypeUnder(f.Type()) == zed.TypeBool {
+					hit = true
+				}
+			}
+			all = all && hit
+		}
+		if all {
+			return "null-equals-false-literal"
+		}
+	}
+	return ""
 }
 
 func describe(c Case, e *encoding) string {
